@@ -14,7 +14,7 @@ UNITS = {
     'blockdata': {'template': 'units/blockdata/unit.rs', 'serves': ['C13', 'C10'], 'min_verified': 23},
     'routing': {'template': 'units/routing/unit.rs', 'serves': ['C16'], 'min_verified': 42},
     'votor': {'template': 'units/votor/unit.rs', 'serves': ['C05'], 'min_verified': 60},
-    'parent_ready': {'template': 'units/parent_ready/unit.rs', 'serves': ['C07'], 'min_verified': 55},
+    'parent_ready': {'template': 'units/parent_ready/unit.rs', 'serves': ['C07'], 'min_verified': 64},
     'slot_state': {'template': 'units/slot_state/unit.rs', 'serves': ['C03', 'C04', 'C06'], 'min_verified': 88},
 }
 
